@@ -2,6 +2,7 @@
 from __future__ import annotations
 
 import ast
+import copy
 from fractions import Fraction
 
 from ..core import astutil as A
@@ -501,10 +502,13 @@ def krylov_memo_keys(chk, prog, rule="T4"):
         for n in ast.walk(f.node):
             if isinstance(n, ast.Subscript) and A.text(n.value) in aliases:
                 (writes if isinstance(n.ctx, ast.Store) else reads).add(A.text(n.slice))
-            if isinstance(n, ast.Compare) and isinstance(n.ops[0], ast.In) and A.text(n.comparators[0]) in aliases:
+            if isinstance(n, ast.Compare) and isinstance(n.ops[0], (ast.In, ast.NotIn)) and A.text(n.comparators[0]) in aliases:
                 tests.add(A.text(n.left))
+            if isinstance(n, ast.Call) and isinstance(n.func, ast.Attribute) and n.func.attr in ("get", "pop", "setdefault") and A.text(n.func.value) in aliases and n.args:
+                reads.add(A.text(n.args[0]))
         chk.require(writes, f"{name}: write of env._temp['expmv_ncv'] not found")
-        ok = reads == writes == tests and len(writes) == 1
+        # a membership test is one way to guard the read (try / except KeyError and .get() are others): where there is one, it uses the same key
+        ok = reads == writes and len(writes) == 1 and (not tests or tests == writes)
         chk.verdict(rule, f, f"{name}: memo key {sorted(writes)}", True if ok else False,
                     f"{name}: the Krylov-dimension memo is tested/read/written under different keys (tested {sorted(tests)}, read "
                     f"{sorted(reads)}, written {sorted(writes)}): a site inherits another site's Krylov dimension")
@@ -626,11 +630,24 @@ def check_projector_form(chk, rule, f, inp):
     """penalty operator  A -> X * (p * <X|A>)  : the scaled vector is the conjugated argument of vdot, the other is the input"""
     rets = [r for r in A.returns_of(f.node) if r.value is not None]
     ok = False
+    b_ = A.local_bindings(f.node)
+
+    def _expand_scalars(e):
+        """single-definition temporaries of the scalar factor are replaced by their definitions (`overlap = vdot(X, A)`)"""
+        class R(ast.NodeTransformer):
+            def visit_Name(self, node):
+                ds = [v_ for st, v_, k in b_.get(node.id, []) if v_ is not None]
+                if isinstance(node.ctx, ast.Load) and len(ds) == 1 and any(isinstance(c, ast.Call) and (A.call_name(c) == "vdot" or A.callee_attr(c) == "vdot")
+                                                                          for c in ast.walk(ds[0])):
+                    return copy.deepcopy(ds[0])
+                return node
+        return R().visit(copy.deepcopy(e))
     for r in rets:
         v = r.value
         if not (isinstance(v, ast.BinOp) and isinstance(v.op, ast.Mult)):
             continue
         for vec, sc in ((v.left, v.right), (v.right, v.left)):
+            sc = _expand_scalars(sc)
             vd = [c for c in ast.walk(sc) if isinstance(c, ast.Call) and (A.call_name(c) == "vdot" or A.callee_attr(c) == "vdot")]
             if len(vd) != 1 or len(vd[0].args) != 2:
                 continue
